@@ -340,6 +340,31 @@ def search(payload):
         got = call(p_, x)
         if got != ("ok", want):
             fails.append({"p": name, "returned_object": repr(p_), "x": repr(x), "implementation": repr(got), "reference": repr(("ok", want))})
+    # the 'of' forms on elements that are == across types, and atoms that were inside a tree the optimizer has seen
+    for name, p_, x, want in (
+            ("is_list_of_p(is_int_p)", SP.is_list_of_p(SP.is_int_p), [1, 1.0], False), ("is_list_of_p(is_int_p)", SP.is_list_of_p(SP.is_int_p), [1.0, 1], False),
+            ("is_list_of_p(is_bool_p)", SP.is_list_of_p(SP.is_bool_p), [True, False, 1], False), ("is_iterable_of_p(is_float_p)", SP.is_iterable_of_p(SP.is_float_p), (1.0, 1), False),
+            ("all_p(is_int_p)", SP.all_p(SP.is_int_p), [1, 1, 1.0], False), ("is_set_of_p(is_int_p)", SP.is_set_of_p(SP.is_int_p), {1, 2}, True),
+            ("any_p(is_float_p)", SP.any_p(SP.is_float_p), [1, 1.0], True), ("is_list_of_p(eq_p(1))", SP.is_list_of_p(SP.eq_p(1)), [1, 1.0, True], True)):
+        n += 1
+        got = call(p_, x)
+        if got != ("ok", want):
+            fails.append({"p": name, "x": repr(x), "implementation": repr(got), "reference": repr(("ok", want))})
+    from predicate import optimize as _optimize
+    a_ = SETP.in_p(1, 2)
+    b_ = SETP.not_in_p(1, 2)
+    for other in (SETP.in_p(3, 4), SETP.not_in_p(3, 4), SP.eq_p(3), SP.ne_p(3)):
+        for t in (a_ | other, other | a_, a_ & other, b_ & other, b_ | other, other & b_, a_ ^ other):
+            try:
+                _optimize(t)
+            except Exception:  # noqa: BLE001
+                pass
+    for x in (1, 2, 3, 4, 5):
+        n += 2
+        if call(a_, x) != ("ok", x in (1, 2)) or call(b_, x) != ("ok", x not in (1, 2)):
+            fails.append({"p": "in_p(1, 2) / not_in_p(1, 2) after optimize() ran on trees containing them", "x": repr(x),
+                          "implementation": repr((call(a_, x), call(b_, x))), "reference": repr((x in (1, 2), x not in (1, 2)))})
+            break
     sets = [set(), {1}, {1, 2}, {2, 3}, {1, 2, 3}]
     for v in sets:
         for name, rel in (("is_subset_p", lambda x, v: x <= v), ("is_real_subset_p", lambda x, v: x < v),
